@@ -34,7 +34,7 @@ class Check(PropertyCheck):
     ID = "C11"
     LEAN_MODULE = "JobShopProofs.Properties.C11"
     THEOREMS = ["JS.C11_isReady", "JS.durationInit_jobs", "JS.durationUpdate_jobs", "JS.C11_duration_jobs",
-                "JS.C11_constructible", "JS.C11_composite", "JS.C11_duration_ops_stale"]
+                "JS.C11_remaining_jobs", "JS.C11_isScheduled_ops", "JS.C11_constructible", "JS.C11_composite", "JS.C11_duration_ops_stale"]
     RULE = ("random instance (all families; machine-level count features only checked on non-flexible ones; with a filter "
             "installed only positive durations, as the property states) x random subset and order of the seven feature "
             "observers, each with a random subset of its feature types, plus a composite over them, all created on the "
